@@ -484,6 +484,17 @@ def parse_instr(l):
         pty, p = take_type(parts[0])
         ty, v = take_type(parts[1])
         return Ins(op, dst, (bop, pty, p.split(' ')[0], ty, v.split(' ')[0]), text)
+    if op == 'cmpxchg':
+        for w in ('weak ', 'volatile '):
+            if rest.startswith(w):
+                rest = rest[len(w):]
+        if rest.startswith('volatile '):
+            rest = rest[9:]
+        parts = split_top(rest)
+        pty, p = take_type(parts[0])
+        ty, c = take_type(parts[1])
+        ty2, n = take_type(parts[2])
+        return Ins(op, dst, (pty, p.split(' ')[0], ty, c.split(' ')[0], n.split(' ')[0]), text)
     if op == 'fence':
         return Ins('nop', None, None, text)
     if op == 'unreachable':
